@@ -290,6 +290,16 @@ func checkC17(w *World, r *Report) {
 					xfers = append(xfers, siteValue(s2))
 				}
 			}
+			if len(xfers) == 0 {
+				// the transfer behind a thin helper that hands the bank's error on
+				for _, e := range w.effectsBelow(split, func(x *Site) bool { return cg.Atom(x) == BankMove }, 2) {
+					if c, isC := e.Site.Instr.(*ssa.Call); isC && len(e.Chain) == 1 && errorKeptUnder(e.Site.Caller, c, errValues(e.Site.Caller, c)) {
+						if tv, isV := e.Top().(ssa.Value); isV {
+							xfers = append(xfers, tv)
+						}
+					}
+				}
+			}
 			r.Check(len(xfers) > 0 && OnSuccessEdge(split, s.Top(), xfers...), "C17.split", "trace appended only after the transfer succeeded", w.Pos(s.Site.Instr.Pos()), "nil edge of the transfer's error", "a trace is recorded although the split failed")
 		}
 	}
